@@ -367,7 +367,7 @@ class Gen:
                 k = rng.choice(["str", "bool"])
                 a = self.gen(k, d - 1)
                 b = self.gen(k, d - 1)
-                if k == "str" and a[0] == "lit" and rng.random() < 0.6:
+                if k == "str" and a[0] == "lit" and a[1] == "str" and rng.random() < 0.6:
                     b = str_variant(rng, a)
                 return ["bin", rng.choice(["==", "!="]), a, b]
             k = rng.choice(["set:int", "set:int", "set:str", "set:rat", "set:set:int"])
